@@ -489,7 +489,9 @@ class UidSearchCommand(SearchCommand):
     @classmethod
     def parse(cls, buf: memoryview, params: Params) \
             -> tuple[UidSearchCommand, memoryview]:
-        ret, buf = super().parse(buf, params.copy(uid=True))
+        # only the results are UIDs, the search keys mean the same as in
+        # SEARCH: a bare sequence set denotes message sequence numbers
+        ret, buf = super().parse(buf, params.copy(uid=False))
         if not isinstance(ret, UidSearchCommand):
             raise TypeError(ret)
         return ret, buf
